@@ -39,6 +39,13 @@ def background(formulas):
     ax += prelude.class_consts_axioms()
     if uses(formulas, {'desc', 'subs_len', 'subs_at'}):
         ax += prelude.hierarchy_axioms()
+    import sys
+    th = sys.modules.get('pyvc.theory')
+    if th is not None:
+        ax += th.injection_axioms()
+        ax += th.pack_axioms()
+        if uses(formulas, {'wref', 'referent'}):
+            ax += th.weakref_axioms()
     return ax
 
 
